@@ -412,14 +412,18 @@ def params(R):
     for (n_, ok_, d_, calls) in hk_iters(R, R.cfg(S + '.run')):
         for (cg, cn, cc) in calls:
             chain.append((cg.ctx.func.qual, S + '._regular', ['poll', 'ping_rate', 'ping_timeout', 'close_timeout'], (cg, cn, cc)))
+    chain2 = []
     for (src, dst, names, site) in chain:
         if site is None:
             g = R.cfg(src)
             cs = calls_to(R, g, dst)
-            need(len(cs) == 1, '%s: expected one call of %s' % (src, dst))
-            n, c = cs[0]
+            need(len(cs) >= 1, '%s: expected a call of %s' % (src, dst))
+            for (n, c) in cs:            # every call site forwards every parameter
+                chain2.append((src, dst, names, (g, n, c)))
         else:
-            g, n, c = site
+            chain2.append((src, dst, names, site))
+    for (src, dst, names, site) in chain2:
+        g, n, c = site
         rd = ReachingDefs(g)
         df = R.func(dst)
         for name in names:
